@@ -142,7 +142,8 @@ fn user_str(u: u32) -> String {
     format!("user{}", u)
 }
 fn pass_str(p: u32) -> String {
-    format!("pass{}", p)
+    // leading and trailing space: legal in an OpaqueString password, and part of the key
+    format!(" pass{} ", p)
 }
 fn realm_str(r: u32) -> String {
     format!("realm{}.org", r)
@@ -726,7 +727,8 @@ impl Run {
         // the record is written after the call for S (it carries the id and the RTO the implementation used)
         match op {
             Op::Send { now, method, room, attrs } => {
-                let buf = vec![0u8; match *room { 0 => 19, 1 => 4096, _ => 80_000 }];
+                // the caller's buffer is recycled memory: zeroes, 0xA5 or 0xFF, by the shape of the call
+                let buf = vec![[0u8, 0xA5, 0xFF][(*now as usize + attrs.len()) % 3]; match *room { 0 => 19, 1 => 4096, _ => 80_000 }];
                 let mut a = app_attrs(attrs);
                 if *room == 2 { over_long(&mut a) }
                 let at = self.at(*now);
@@ -749,7 +751,7 @@ impl Run {
                 out.rec(&format!("J {}", extra));
             }
             Op::Ind { method, room, attrs } => {
-                let buf = vec![0u8; match *room { 0 => 19, 1 => 4096, _ => 80_000 }];
+                let buf = vec![[0xFFu8, 0, 0xA5][(*method as usize + attrs.len()) % 3]; match *room { 0 => 19, 1 => 4096, _ => 80_000 }];
                 let mut a = app_attrs(attrs);
                 if *room == 2 { over_long(&mut a) }
                 let m = MessageMethod::try_from(*method).unwrap();
@@ -774,7 +776,18 @@ impl Run {
                 glue_crafted(&self.realms, *class, *method, attrs, &bytes);
                 if !*decodable {
                     // undecodable: break the framing (length field beyond the buffer) or the cookie
-                    if attrs.len() % 2 == 0 { bytes[4] ^= 0x55 } else { let l = bytes.len(); bytes.truncate(l - 1) }
+                    // or leave 1..3 stray bytes at the end of the attribute area, covered by the length field (a STUN length
+                    // is a multiple of 4: such a datagram is not a STUN message however well the rest of it parses)
+                    match (attrs.len() + *id as usize) % 4 {
+                        0 => bytes[4] ^= 0x55,
+                        1 => { let l = bytes.len(); bytes.truncate(l - 1) }
+                        k => {
+                            let extra = if k == 2 { 1 } else { 3 };
+                            for j in 0..extra { bytes.push(0x80 + j as u8) }
+                            let l = (bytes.len() - 20) as u16;
+                            bytes[2..4].copy_from_slice(&l.to_be_bytes());
+                        }
+                    }
                 }
                 out.rec(&format!("O R {} {} {} {} {} {}", now, *decodable as u8, class, method, id, toks(attrs)));
                 let at = self.at(*now);
